@@ -1,6 +1,11 @@
 """Helpers shared by the sift-family checks (polymorphic: they work on solver terms and on floats)."""
 import contextlib
+import glob
+import json
 import math
+import os
+import shutil
+import tempfile
 from fractions import Fraction
 
 import numpy as np
@@ -179,3 +184,30 @@ def abs_sum(v):
     for x in v[1:]:
         tot = tot + abs(x)
     return tot
+
+
+class Collector(object):
+    def __init__(self, h):
+        self.h = h
+        self.calls = []
+        self.dir = None
+
+    def __enter__(self):
+        if self.h.symbolic:
+            S._verif_sink = lambda kind, payload: self.calls.append((kind, payload))
+        else:
+            self.dir = tempfile.mkdtemp(prefix='emd-verif-trace-')
+            os.environ['AJQUINN_EMD_MIRROR_VERIF_TRACE'] = self.dir
+        return self
+
+    def __exit__(self, *a):
+        if self.h.symbolic:
+            S._verif_sink = None
+        else:
+            os.environ.pop('AJQUINN_EMD_MIRROR_VERIF_TRACE', None)
+            for f in sorted(glob.glob(os.path.join(self.dir, '*.jsonl'))):
+                for line in open(f):
+                    rec = json.loads(line)
+                    self.calls.append((rec.pop('kind'), rec))
+            shutil.rmtree(self.dir, ignore_errors=True)
+        return False
